@@ -435,9 +435,17 @@ func rawBodies(r *ev.Run) {
 		r.Eval(1)
 		r.Guard(c, "Forward", rec, func() {
 			ag.ResetLog()
-			if frag {
+			switch {
+			case code%7 == 3 && n <= 64:
+				// the underlying agent answers with an empty frame, resp. a long arbitrary one
+				rep := []byte{}
+				if n == 64 {
+					rep = gen.Bytes(c.Rand, 70000)
+				}
+				ag.SetPlan(func(int, []byte) wire.Action { return wire.Action{Kind: wire.Custom, Reply: rep, Fragment: frag} })
+			case frag:
 				ag.SetPlan(func(int, []byte) wire.Action { return wire.Action{Kind: wire.Honest, Fragment: true} })
-			} else {
+			default:
 				ag.SetPlan(nil)
 			}
 			resp, err := s.Forward(req)
